@@ -28,6 +28,14 @@ def parse_args(prop):
     ap.add_argument("--jobs", type=int, default=int(os.environ.get("VERIF_JOBS", "0") or 0))
     ap.add_argument("--limit", type=int, default=0, help="debug: only the first n programs")
     a = ap.parse_args()
+    # one scratch area per check run: worker processes put their directories under it, the main process removes it at the end
+    os.environ.setdefault("VERIF_RUN_ID", f"{prop}-{os.getpid()}")
+    import atexit
+    import shutil
+    import tempfile
+    _area = os.path.join(os.environ.get("VERIF_SCRATCH", tempfile.gettempdir()), "verif-" + os.environ["VERIF_RUN_ID"])
+    _owner = os.getpid()
+    atexit.register(lambda: shutil.rmtree(_area, ignore_errors=True) if os.getpid() == _owner else None)
     if not a.jobs:
         a.jobs = min(16, os.cpu_count() or 4)
     return a
